@@ -26,7 +26,7 @@ def _observers():
 
 def run(ctx):
     obs = _observers() if ctx.extra.get('model_available', True) else []
-    session.run_sessions(ctx, ctx.scale(250, 6000), ctx.scale(14, 40), ['inv', 'reads'], observers=obs)
+    session.run_sessions(ctx, ctx.scale(250, 6000), ctx.scale(14, 40), ['inv', 'reads', 'nodouble'], observers=obs, malformed=0.12)
     session.run_churn(ctx, ctx.scale(100, 1500), ctx.scale(50, 80), ['inv', 'reads'], observers=obs)   # small blocks: split/merge/redistribution underneath
     session.finish_observers(ctx, obs)
     slicegrid.run(ctx, ['inv'])
@@ -37,8 +37,8 @@ def run(ctx):
 
 
 def search(ctx, hints):
-    session.run_sessions(ctx, ctx.scale(2500, 10000), 30, ['inv', 'reads'])
+    session.run_sessions(ctx, ctx.scale(2500, 10000), 30, ['inv', 'reads', 'nodouble'], malformed=0.12)
 
 
 def replay(ctx, data):
-    return not session.replay(data, ['inv', 'reads'])
+    return not session.replay(data, ['inv', 'reads', 'nodouble'])
